@@ -58,7 +58,7 @@ Print Assumptions C18_safeb_decides_Safe.
 (* the jnp.where pitfall: where(x <= 0, 1, log x) at x = 0 has a finite value and a poisoned gradient; it is not Safe *)
 Theorem C18_where_pitfall_refuted :
   eval OROps (lift (en_of [0])) pit = Some 1 /\ vjp OROps (lift (en_of [0])) pit (Some 1) (TVar 0) = None /\ ~ Safe (en_of [0]) pit.
-Proof. exact (conj pit_value (conj pit_grad_poisoned pit_not_safe)). Qed.
+Proof. exact where_pitfall. Qed.
 Print Assumptions C18_where_pitfall_refuted.
 
 (* ---------- Safe of every formula as coded, at ALL real inputs and ALL valid parameters ---------- *)
